@@ -211,6 +211,7 @@ def run(run: common.Run):
             if m != im:
                 run.disagree(case, line, m, im)
     real_files(run)
+    zero_wavelength_probe(run)
 
 
 def real_files(run):
@@ -262,3 +263,19 @@ def real_files(run):
         impls.append(rep)
         cases.append(jsonable_case(case))
     run.compare_lines(cases, lines, impls)
+
+
+def zero_wavelength_probe(run):
+    """known finding D12: all reference wavelengths 0.0 -> numpy any() is false -> tolerance is never checked"""
+    case = dict(i=-12, src=[dict(alpha=False, mask=False, ci='o', wl=Fraction(1, 2), descr=None)],
+                ref=[dict(alpha=False, mask=False, ci='o', wl=Fraction(0), descr=None)], sel_s=None, sel_r=None, force=False)
+    rep, sr = impl_match(case)
+    run.evaluations += 1
+    if sr is not None:
+        run.fail(jsonable_case(case), 'source band 1 (0.5 um) matched with reference band 1 (0.0 um) without force: they differ by '
+                 'more than 10 %', signature=dict(kind='within-tolerance', all_ref_wavelengths_zero=True))
+    m = common.model_batch([model_line(case)])
+    if m is not None:
+        run.lines_compared += 1
+        if m[0] != rep:
+            run.disagree(jsonable_case(case), model_line(case), m[0], rep)
